@@ -9,7 +9,11 @@ from cmpverif import selftest
 props = [c["property_id"] for c in json.load(open(os.path.join(HERE, "..", "MANIFEST.json")))["checks"]]
 total = 0
 for patch in sys.argv[1:]:
-    d = selftest.make_scratch("/repo")
+    # scratch copy of the committed HEAD (not of the working tree: another tool may have a seeded patch applied there for a moment)
+    import tempfile
+    from cmpverif import build
+    d = tempfile.mkdtemp(prefix="cp-", dir=build._scratch_base())
+    subprocess.run("git -C /repo archive HEAD src include external CMakeLists.txt | tar -x -C %s" % d, shell=True, check=True)
     try:
         ok, out = selftest.apply_patch(d, os.path.abspath(patch))
         if not ok:
